@@ -66,10 +66,10 @@ type probeObs struct {
 //	observedgeneration.go:24  ".status outdated"
 //	condition.go:28           `condition %q == %q: ` + one of
 //	condition.go:35             "missing .status.conditions"
-//	condition.go:38,45          "malformed"
-//	condition.go:57             "outdated"
-//	condition.go:63             "wrong status"
-//	condition.go:65             "not reported"
+//	condition.go:38,59          "malformed"
+//	condition.go:51,71          "outdated"
+//	condition.go:77             "wrong status"
+//	condition.go:79             "not reported"
 //	fieldsequal.go:36         `"%v" == "%v": ` + one of
 //	fieldsequal.go:41           `"%v" missing` (FieldA)
 //	fieldsequal.go:45           `"%v" missing` (FieldB)
